@@ -88,6 +88,18 @@ func getConc(c *core.Ctx) *concModel {
 			}
 		}
 	}
+	// typed atomics: package variables of a sync/atomic type (or a pointer to one, set once by the initialiser)
+	for _, mem := range m.pkg.Members {
+		gl, ok := mem.(*ssa.Global)
+		if !ok || seen[gl] {
+			continue
+		}
+		if isAtomicType(gl.Type().(*types.Pointer).Elem()) {
+			seen[gl] = true
+			m.limit = append(m.limit, gl)
+		}
+	}
+	sort.Slice(m.limit, func(i, j int) bool { return m.limit[i].Name() < m.limit[j].Name() })
 	m.callers = map[*ssa.Function][]*ssa.Function{}
 	for _, g := range c.AllModFuncs() {
 		for _, b := range g.Blocks {
@@ -115,6 +127,15 @@ func getConc(c *core.Ctx) *concModel {
 	m.computeFreshRet()
 	c.Memo["conc"] = m
 	return m
+}
+
+// isAtomicType: t is (a pointer to) one of the typed atomics of sync/atomic.
+func isAtomicType(t types.Type) bool {
+	if pt, ok := t.(*types.Pointer); ok {
+		t = pt.Elem()
+	}
+	n, ok := t.(*types.Named)
+	return ok && n.Obj().Pkg() != nil && n.Obj().Pkg().Path() == "sync/atomic"
 }
 
 func isRWMutex(t types.Type) bool {
@@ -687,6 +708,25 @@ var ruleAtomics = &core.Rule{ID: "R06.1", Min: 3,
 							}
 							if f.Name() == "init" && f.Synthetic != "" {
 								s.OK(key, c.Pos(in.Pos()), "package initialiser")
+								continue
+							}
+							// pointer to a typed atomic: the pointer is only read, and only to call the type's methods
+							if ld, ok := in.(*ssa.UnOp); ok && ld.Op == token.MUL && ld.X == ssa.Value(g) && isAtomicType(ld.Type()) {
+								okUse := true
+								for _, ref := range *ld.Referrers() {
+									ci, isCall := ref.(ssa.CallInstruction)
+									if _, dbg := ref.(*ssa.DebugRef); dbg {
+										continue
+									}
+									h := (*ssa.Function)(nil)
+									if isCall {
+										h = ci.Common().StaticCallee()
+									}
+									if h == nil || h.Pkg == nil || h.Pkg.Pkg.Path() != "sync/atomic" || len(ci.Common().Args) == 0 || ci.Common().Args[0] != ssa.Value(ld) {
+										okUse = false
+									}
+								}
+								s.Check(okUse, key, c.Pos(in.Pos()), "receiver of a sync/atomic method", fmt.Sprintf("the atomic value behind %s is used other than through its methods", g.Name()))
 								continue
 							}
 							s.Bad(key, c.Pos(in.Pos()), fmt.Sprintf("plain (non-atomic) use of %s, which other code accesses atomically: data race with SetLimit", g.Name()))
